@@ -199,6 +199,41 @@ func registerIntrinsics(in *Interp) {
 	}
 	I[V+"ExpectExit"] = func(in *Interp, fr *frame, a []Val) Val { in.exitExpected = true; return nil }
 
+	// vTagged(v, shape, tags): a fresh struct whose tag texts are served by the
+	// reflect model from the (possibly symbolic) strings given
+	I[flagsPkg+".vTagged"] = func(in *Interp, fr *frame, a []Val) Val {
+		shape := concStr(a[1])
+		tags := a[2].(Slice).a
+		names := map[string]string{"s": "vTS", "b": "vTB", "ss": "vTSS", "g": "vTG", "gg": "vTGG", "c": "vTC", "p": "vTP"}
+		tn, ok := names[shape]
+		if !ok {
+			panic(in.unsupported("vTagged shape " + shape))
+		}
+		obj := in.mainPkg.Pkg.Scope().Lookup(tn)
+		t := obj.Type()
+		st := t.Underlying().(*types.Struct)
+		set := func(st *types.Struct, i int, tag Val) { in.tagOverride[tagKey{st, i}] = tag.(Str) }
+		inner := func(i int) *types.Struct { return st.Field(i).Type().Underlying().(*types.Struct) }
+		switch shape {
+		case "s", "b", "g", "c":
+			set(st, 0, tags[0])
+		case "ss":
+			set(st, 0, tags[0])
+			set(st, 1, tags[1])
+		case "gg":
+			set(st, 0, tags[0])
+			set(inner(0), 0, tags[1])
+			set(st, 1, tags[2])
+			set(inner(1), 0, tags[3])
+		case "p":
+			set(st, 0, tags[0])
+			set(inner(0), 0, tags[1])
+		}
+		p := new(Val)
+		*p = in.zero(t)
+		return Iface{t: types.NewPointer(t), v: p}
+	}
+
 	// ---- os ----
 	I["os.Getenv"] = func(in *Interp, fr *frame, a []Val) Val {
 		if v, ok := in.env[concStr(a[0])]; ok {
